@@ -13,7 +13,10 @@ RULE = ('(A) token level: every token sequence of length <= 4 over a 13-symbol a
         'with minimal / full / random redundant parentheses, with random blanks and several operand encodings, '
         'parsed by the real ExpressionParser.parse with recording operators; (B) value level: random typed trees '
         'of depth <= 6 over integer/single/double/string literals and variables plus every ordered pair of binary '
-        'operators and every unary placement over several operand triples, evaluated in one long-lived Session '
+        'operators and every unary placement over several operand triples, plus zeros of every provenance (literals, '
+        'zero variables, unary minus on each, negated zero subexpressions, stored negated zeros, products with zero, '
+        'underflows, CVS/CVD exponent-0 patterns) under every relational/binary/unary operator and SGN ABS INT FIX CINT, '
+        'evaluated in one long-lived Session '
         'through parse_expression, Session.evaluate, PRINT and stored program lines; one case = one expression '
         'text or token sequence; non-trivial = contains at least one operator')
 EXPLANATION = ('theorems (PcbV.Props.C18): parse_prints/parse_show/parse_show_full — the stack machine rebuilds '
@@ -585,10 +588,13 @@ def dec(x):
 VARS = [('A%', 'I', -3), ('B%', 'I', 7), ('C%', 'I', -32768), ('D%', 'I', 32767), ('E%', 'I', 0), ('F%', 'I', 2),
         ('P!', 'S', Fraction(-5, 2)), ('Q!', 'S', Fraction(3, 4)), ('R!', 'S', -4), ('S!', 'S', 16777215),
         ('X#', 'D', Fraction(-1, 8)), ('Y#', 'D', 2 ** 40 + 1), ('Z#', 'D', -8), ('W#', 'D', Fraction(3, 2)),
+        ('ZS!', 'S', 0), ('ZD#', 'D', 0), ('NS!', 'S', 0), ('ND#', 'D', 0),
         ('T$', 'T', b'ab'), ('U$', 'T', b''), ('V$', 'T', b'abc')]
+# variables whose zero is the result of an earlier negation (the sign-bit zero persists in memory)
+INIT = {'NS!': '-ZS!', 'ND#': '-ZD#'}
 LITS = [('I', 0), ('I', 1), ('I', 2), ('I', 3), ('I', 4), ('I', 5), ('I', 8), ('I', 10), ('I', 16), ('I', 255),
         ('I', 32767), ('S', Fraction(1, 2)), ('S', Fraction(5, 2)), ('S', Fraction(1, 4)), ('S', 3), ('S', 8),
-        ('S', 40000), ('S', 100000), ('D', Fraction(3, 2)), ('D', Fraction(1, 8)), ('D', 3), ('D', 4),
+        ('S', 40000), ('S', 100000), ('S', 0), ('D', 0), ('D', Fraction(3, 2)), ('D', Fraction(1, 8)), ('D', 3), ('D', 4),
         ('D', 2 ** 40 + 1), ('T', b'ab'), ('T', b'b'), ('T', b''), ('T', b'abd')]
 
 
@@ -706,6 +712,11 @@ class RealEval(object):
     def set_vars(self):
         for name, ty, v in VARS:
             self.session.set_variable(name, v if ty == 'T' else (int(v) if ty == 'I' else float(Fraction(v))))
+        for name in sorted(INIT):
+            self.session.execute(('%s=%s' % (name, INIT[name])).encode())
+        # array elements: a plain zero and a negated one
+        self.session.execute(b'ERASE ZA')
+        self.session.execute(b'DIM ZA(2):ZA(1)=-ZA(0)')
 
     def printed(self, text, program):
         """bytes written by PRINT <text>, in direct mode or as a stored program (literals then live in code space);
@@ -716,9 +727,11 @@ class RealEval(object):
                 assigns = []
                 for name, ty, v in VARS:
                     lit = b'"%s"' % v if ty == 'T' else dec(Fraction(v)).encode() + (b'#' if ty == 'D' else b'')
+                    if name in INIT:
+                        lit = INIT[name].encode()
                     assigns.append(name.encode() + b'=' + lit)
                 self.session.execute(b'10 ' + b':'.join(assigns[:9]))
-                self.session.execute(b'20 ' + b':'.join(assigns[9:]))
+                self.session.execute(b'20 ' + b':'.join(assigns[9:]) + b':DIM ZA(2):ZA(1)=-ZA(0)')
                 self.session.execute(b'30 PRINT ' + text.encode('latin-1'))
                 out = self.session.execute(b'RUN')
                 self.session.execute(b'NEW')
@@ -732,7 +745,7 @@ class RealEval(object):
 ERRMSG = {13: b'Type mismatch', 6: b'Overflow', 22: b'Missing operand', 2: b'Syntax error'}
 
 
-def check_value_case(ctx, real, toks, text, label, model_req=None, deep=False):
+def check_value_case(ctx, real, toks, text, label, model_req=None, deep=False, value_only=False):
     """one expression: oracle vs parse_expression, Session.evaluate and (deep) PRINT"""
     try:
         exp = pc_eval([t if t in ('(', ')') else (t[0], t[1]) for t in toks], real.dm)
@@ -774,7 +787,7 @@ def check_value_case(ctx, real, toks, text, label, model_req=None, deep=False):
         ctx.fail('value:unread-input:%s' % opkey, case, '%s: parse stopped before %r' % (text, rest))
     if gv != e.v:
         ctx.fail('value:%s' % opkey, case, '%s: expected value %s, got %s' % (text, e.v, gv))
-    if gty != e.ty:
+    if gty != e.ty and not value_only:
         if gty == e.tyc and e.dev:
             # the documented deviations of the coded typing from the statement's literal wording
             for d in sorted(e.dev):
@@ -822,6 +835,8 @@ def part_b(ctx):
         model_cases.append(letters)
         model_impl.append('ok %s' % got[1] if got[0] == 'ok' else 'err 13')
 
+    # 0. zeros of every provenance under every operator: a zero is a zero, whatever its encoding
+    part_b_zeros(ctx, reals)
     # 1. every ordered pair of binary operators and every unary placement, several operand triples
     triples = []
     for _ in range(4 if ctx.quick else 12):
@@ -920,6 +935,104 @@ def part_b(ctx):
                      '%s: the operator function raised Python %s' % (l, o))
 
 
+def zero_operands():
+    """token groups that evaluate to zero: literals, zero variables of each type, unary minus on each of
+    them, negated zero subexpressions, stored negated zeros (variables, array element), products with zero,
+    underflowed products, CVS/CVD patterns with exponent byte 0 (sign bit / stray mantissa bits)"""
+    zero = Fraction(0)
+
+    def leaf(ty, text):
+        return ('val', V(ty, zero), text)
+    neg, minus, times = ('op', '-'), ('op', '-'), ('op', '*')
+    one = ('val', V('I', Fraction(1)), '1')
+    two = ('val', V('I', Fraction(2)), '2')
+    lits = [leaf('I', '0'), leaf('S', '0!'), leaf('D', '0#')]
+    zvars = [leaf('I', 'E%'), leaf('S', 'ZS!'), leaf('D', 'ZD#')]
+    plain = [[x] for x in lits + zvars] + [[leaf('S', 'ZA(0)')], ['(', two, minus, two, ')']]
+    signed = [[neg, x] for x in lits + zvars]
+    signed += [[leaf('S', 'NS!')], [leaf('D', 'ND#')], [leaf('S', 'ZA(1)')], [neg, leaf('S', 'ZA(0)')],
+               [neg, '(', two, minus, two, ')'], [neg, neg, lits[0]], [neg, '(', neg, lits[1], ')'],
+               ['(', lits[0], times, neg, one, ')'], ['(', neg, one, times, lits[0], ')'],
+               ['(', zvars[2], times, neg, two, ')'],
+               [leaf('S', '(1E-30*1E-30)')], [leaf('S', '(-1E-30*1E-30)')], [leaf('D', '(1D-30*-1D-30)')],
+               [leaf('S', 'CVS(CHR$(0)+CHR$(0)+CHR$(128)+CHR$(0))')],
+               [leaf('S', 'CVS(CHR$(1)+CHR$(2)+CHR$(131)+CHR$(0))')],
+               [leaf('S', 'CVS(CHR$(255)+CHR$(255)+CHR$(127)+CHR$(0))')],
+               [leaf('D', 'CVD(STRING$(6,0)+CHR$(128)+CHR$(0))')],
+               [leaf('D', 'CVD(CHR$(5)+STRING$(5,7)+CHR$(200)+CHR$(0))')],
+               [neg, leaf('S', 'CVS(CHR$(1)+CHR$(2)+CHR$(3)+CHR$(0))')]]
+    return plain, signed
+
+
+def part_b_zeros(ctx, reals):
+    rng = ctx.rng
+    plain, signed = zero_operands()
+    zeros = plain + signed
+    half = ('val', V('S', Fraction(1, 2)), '.5')
+    nonzero = [[('val', V('I', Fraction(1)), '1')], [('op', '-'), ('val', V('I', Fraction(1)), '1')],
+               [('op', '-'), half], [('val', V('D', Fraction(5, 2)), '2.5#')], [('val', V('S', Fraction(-5, 2)), 'P!')],
+               [('val', V('D', Fraction(-1, 8)), 'X#')], [('val', V('I', Fraction(2)), 'F%')]]
+    n = 0
+
+    def go(toks, label, **kw):
+        real = reals[rng.random() < 0.25]
+        return check_value_case(ctx, real, toks, tokens_text(toks, rng), label, **kw)
+
+    # relational operators: every zero against every plain zero (both orders), and a sample of all pairs
+    rel_pairs = [(a, b) for a in zeros for b in plain] + [(b, a) for a in signed for b in plain]
+    rel_pairs += [(rng.choice(zeros), rng.choice(zeros)) for _ in range(150 if ctx.quick else 2000)]
+    rel_pairs += [(rng.choice(zeros), rng.choice(nonzero)) for _ in range(60 if ctx.quick else 600)]
+    rel_pairs += [(rng.choice(nonzero), rng.choice(zeros)) for _ in range(60 if ctx.quick else 600)]
+    for a, b in rel_pairs:
+        for k in (RELS if not ctx.quick else ('>', '<', '=', rng.choice(['>=', '=>']), rng.choice(['<=', '=<']),
+                                              rng.choice(['<>', '><']))):
+            go(a + [('op', k)] + b, 'zero-rel')
+            n += 1
+    # every other binary operator with a zero on either / both sides
+    for z in zeros:
+        for k in BIN_SYMS:
+            if k in RELS:
+                continue
+            o = rng.choice(nonzero)
+            for toks in (z + [('op', k)] + o, o + [('op', k)] + z, z + [('op', k)] + rng.choice(zeros)):
+                go(toks, 'zero-bin')
+                n += 1
+        # unary operators, also doubled, and a comparison of the result
+        for u in UN_SYMS:
+            go([('op', u)] + z, 'zero-un')
+            go([('op', u), '('] + z + [')', ('op', rng.choice(RELS))] + rng.choice(plain), 'zero-un')
+            n += 2
+        # numeric functions of a zero are zero (result types of functions are not part of the statement)
+        ztext = tokens_text(z, rng)
+        for fn in ('SGN', 'ABS', 'INT', 'FIX', 'CINT'):
+            f = ('val', V('I' if fn in ('SGN', 'CINT') else 'S', Fraction(0)), '%s(%s)' % (fn, ztext))
+            k = rng.choice(RELS)
+            for toks in ([f], [f, ('op', k)] + rng.choice(plain), rng.choice(plain) + [('op', k), f],
+                         [('op', '-'), f, ('op', k)] + rng.choice(zeros)):
+                go(toks, 'zero-fn', value_only=True)
+                n += 1
+    # the same after the negated zero went through a stored program (assignment, IF, array element)
+    real = reals[False]
+    try:
+        real.session.execute(b'NEW')
+        for line in (b'10 DX=0:DD#=0:DIM AA(2)', b'20 DX=-DX:DD#=-DD#:AA(1)=-AA(0)',
+                     b'30 IF DX>=0 THEN PRINT "A"; ELSE PRINT "a";', b'40 IF 0>DD# THEN PRINT "b"; ELSE PRINT "B";',
+                     b'50 IF AA(1)<AA(0) THEN PRINT "c"; ELSE PRINT "C";',
+                     b'60 PRINT 0>DX;DX<0;DX=0;0<=DD#;DD#>=0;AA(1)<>0'):
+            real.session.execute(line)
+        out = real.session.execute(b'RUN')
+        real.session.execute(b'NEW')
+    except Exception as e:  # noqa
+        out = b'<<EXC %s>>' % type(e).__name__.encode()
+    real.set_vars()
+    ctx.case(('B', 'zero-program'))
+    if out.split() != [b'ABC', b'0', b'0', b'-1', b'-1', b'-1', b'0']:
+        ctx.fail('zero:program', {'part': 'B', 'zero_program': True},
+                 'DX=0: DX=-DX: comparisons of the stored negated zero printed %r, expected ABC 0 0 -1 -1 -1 0' % out)
+    ctx.notes['zero_cases'] = '%d expressions over %d zero operands (%d with a sign bit or stray bits)' % (
+        n, len(zeros), len(signed))
+
+
 def call_type(real, fn, *args):
     try:
         r = fn(*args)
@@ -950,6 +1063,9 @@ def replay(ctx, payload):
             else:
                 toks.append(('op', t[1]))
         check_value_case(sub, real, toks, case['text'], 'replay', deep=case.get('deep') or False)
+    elif case.get('zero_program'):
+        sub.rng = __import__('random').Random(payload.get('seed', 0))
+        part_b_zeros(sub, {False: RealEval(False), True: RealEval(True)})
     elif case.get('part') == 'B' and 'named' in case:
         got = RealEval(False).parse_expression(case['text'])
         if got[0] != 'ok' or got[2] != Fraction(case['named']):
